@@ -97,6 +97,12 @@ def jobs(tier, seed):
     for i in range(0, len(cfgs), n):
         js.append(dict(kind='namer', cfgs=cfgs[i:i + n], tier=tier))
     js.append(dict(kind='cd', tier=tier))
+    # the same through the command line: option parsing and FileWriterSetupTask decide how
+    # --restrict-file-names and the directory options reach the namer
+    subsets = restrict_subsets()
+    n = 8
+    for i in range(0, len(subsets), n):
+        js.append(dict(kind='cli', restrict=subsets[i:i + n], tier=tier))
     from vt import histfork
     js += histfork.hist_jobs(len(hist_alphabet({})), tier)
     if seed:
@@ -112,6 +118,9 @@ def run_job(job):
                samples=[], distinct=set(), extra={'namer_exceptions': 0})
     seen = set()
     root = '/dev/shm/verif-c15-root/dl'
+    if job['kind'] == 'cli':
+        run_cli(job, res, seen)
+        return res
     if job['kind'] == 'hist':
         from vt import histfork
         histfork.run_hist_job('vt.checks.c15', PROPERTY, job, res, seen)
@@ -196,6 +205,101 @@ def hist_judge(item, obs):
     return judge_path(obs, HIST_ROOT, HIST_CFGS[item[0]])
 
 
+RESTRICT_VALUES = ['windows', 'unix', 'lower', 'upper', 'ascii', 'nocontrol']
+CLI_URLS = ['http://a.test/d/file.bin', 'ftp://a.test/pub/a%2Fb%2F..%2F..%2Fc',
+            'ftp://a.test/%2E%2E/%2E%2E/etc', 'http://a.test/x?q=../../up&r=/abs',
+            'http://a.test/a%5Cb/..%5C..%5Cc', 'http://a.test/d/a%0Ab%01', 'http://a.test/',
+            'http://a.test/CON/aux.', 'ftp://a.test/..%2f..%2fetc%2fpasswd']
+CLI_CDS = [None, 'attachment; filename="../../x"', 'attachment; filename=" .. "',
+           'attachment; filename=/abs/path', 'attachment; filename="a\\..\\b"']
+CLI_DIR_OPTS = [[], ['-nd'], ['-x', '-nH', '--cut-dirs', '1'],
+                ['-x', '--protocol-directories', '--max-filename-length', '9']]
+
+
+def restrict_subsets():
+    out = [[]]
+    for k in range(1, len(RESTRICT_VALUES) + 1):
+        for comb in itertools.combinations(RESTRICT_VALUES, k):
+            out.append(list(comb))
+    return out
+
+
+def run_cli(job, res, seen):
+    from wpull.application.builder import Builder
+    from wpull.application.options import AppArgumentParser
+    from wpull.application.tasks.writer import FileWriterSetupTask
+    from wpull.protocol.http.request import Request, Response
+    wd = warcharn.new_workdir()
+    root = os.path.join(wd, 'dl')
+    os.makedirs(root)
+    try:
+        for restrict in job['restrict']:
+            for dir_opts in CLI_DIR_OPTS:
+                argv = ['http://a.test/', '-r', '--content-disposition', '-P', root,
+                        '--very-quiet'] + dir_opts
+                if restrict:
+                    argv += ['--restrict-file-names', ','.join(restrict)]
+                try:
+                    args = AppArgumentParser().parse_args(argv)
+                    builder = Builder(args, unit_test=True)
+
+                    class Sess:
+                        pass
+                    sess = Sess()
+                    sess.args, sess.factory = args, builder.factory
+                    writer = FileWriterSetupTask._build_file_writer(sess)
+                except SystemExit:
+                    res['outcomes']['cli-rejected'] = res['outcomes'].get('cli-rejected', 0) + 1
+                    continue
+                finally:
+                    warcharn.teardown_logging()
+                cfg = dict(os_type='windows' if 'windows' in restrict else 'unix',
+                           no_control='nocontrol' not in restrict)
+                for url in CLI_URLS:
+                    for cd in CLI_CDS:
+                        res['evaluations'] += 1
+                        session = writer.session()
+                        try:
+                            req = Request(url) if url.startswith('http') else None
+                            if req is None:
+                                from wpull.protocol.ftp.request import Request as FReq
+                                req = FReq(url)
+                            session.process_request(req)
+                            if cd is not None and url.startswith('http'):
+                                resp = Response(200, 'OK')
+                                resp.request = req
+                                resp.fields['Content-Disposition'] = cd
+                                try:
+                                    session.process_response(resp)
+                                finally:
+                                    close_body(resp)
+                        except Exception as e:
+                            k = 'exception:' + type(e).__name__
+                            res['outcomes'][k] = res['outcomes'].get(k, 0) + 1
+                            res['extra']['namer_exceptions'] += 1
+                        p = getattr(session, '_filename', None)
+                        if not p:
+                            continue
+                        res['distinct'].add(h64(('cli', p[len(root):])))
+                        v = judge_path(p, root, cfg)
+                        key = 'cli-ok' if not v else 'cli-bad'
+                        res['outcomes'][key] = res['outcomes'].get(key, 0) + 1
+                        if v:
+                            sig = 'C15:cli:%s:%s' % (re.sub(r"'[^']*'", 'X', v)[:40],
+                                                     ','.join(restrict))
+                            if sig not in seen and len(res['violations']) < 5:
+                                seen.add(sig)
+                                res['violations'].append(dict(
+                                    violation='%s for %s%s with options %s -> %r' % (
+                                        v, url, ' + Content-Disposition %r' % cd if cd else '',
+                                        argv[5:], p[len(wd):][:120]),
+                                    signature=sig, kind='cli', restrict=restrict))
+        res['samples'].append(dict(kind='command-line option sets', restrict=job['restrict'],
+                                   dir_option_sets=len(CLI_DIR_OPTS), urls=len(CLI_URLS)))
+    finally:
+        warcharn.cleanup(wd)
+
+
 def run_cd(job, res, seen):
     """Server-supplied names through the real writer session."""
     from wpull.path import PathNamer
@@ -262,6 +366,11 @@ def close_body(resp):
 def replay(rec):
     res = dict(evaluations=0, outcomes={}, violations=[], distinct=set(),
                extra={'namer_exceptions': 0}, samples=[])
+    if rec['kind'] == 'cli':
+        run_cli(dict(restrict=[rec['restrict']], tier='quick'), res, set())
+        hit = [v for v in res['violations'] if v['signature'] == rec['signature']]
+        return (rec['violation'] if hit else None), (rec['signature'] if hit else None), \
+            [v['signature'] for v in res['violations']]
     if rec['kind'] == 'hist':
         from vt import histfork
         return histfork.replay_hist('vt.checks.c15', rec)
